@@ -27,9 +27,11 @@ def gen_case(seed, k, cap):
     drive = []
     if "Ord" in td.traits:
         drive.append("        %sdrive_cmp(\"c%d\", %d, &mk);" % (S.RT, k, len(vals)))
+        drive.append("        %sdrive_cmp_self(\"c%d\", %d, &mk);" % (S.RT, k, len(vals)))
     if "PartialOrd" in td.traits:
         # with Ord alone partial_cmp comes from the user's own impl (std derive here), not from educe
         drive.append("        %sdrive_pcmp(\"c%d\", %d, &mk);" % (S.RT, k, len(vals)))
+        drive.append("        %sdrive_pcmp_self(\"c%d\", %d, &mk);" % (S.RT, k, len(vals)))
     return BH.Case("c%d" % k, td, text, vals, drive="\n".join(drive), info={"mode": mode})
 
 
@@ -90,6 +92,13 @@ def judge(chk, c, obs, dropped):
     table = {}
     mev = 0
     for op, i, j, res, ev in o.recs:
+        if op in ("cmpself", "pcmpself"):
+            want = expected(td, c.vals[i], c.vals[i], key, key != "Ord")
+            if BH.ORD[res[0]] != want:
+                chk.violation("%s|%s" % (op, td.kind), "a value compared with itself (same object): %s gives %s, oracle says %s\n"
+                              "a = %s\n%s" % (op, res[0], want, c.vals[i], c.text), files)
+                return
+            continue
         table[(op, i, j)] = BH.ORD[res[0]]
         ok, k = BH.method_events_ok(ev)
         mev += k
